@@ -318,6 +318,9 @@ func RunProperty(p *Property, env *Env, known *Known, corpus []Case) int {
 	if p.Final != nil {
 		finalErr = p.Final(env, r)
 	}
+	if inc := r.Counts["inconclusive"]; finalErr == nil && inc > 20 && inc*20 > r.Evaluations {
+		finalErr = fmt.Errorf("%d of %d cases were inconclusive (watchdog hits, comparison budget, harness faults): the run cannot vouch for the property; first note: %s", inc, r.Evaluations, oneLine(firstOf(r.Inconclusive), 300))
+	}
 	if finalErr == nil && len(r.Nontrivial) < p.MinNontrivial {
 		finalErr = fmt.Errorf("only %d non-trivial cases observed (minimum %d): the workload did not exercise the property", len(r.Nontrivial), p.MinNontrivial)
 	}
@@ -347,6 +350,13 @@ func RunProperty(p *Property, env *Env, known *Known, corpus []Case) int {
 		return 3
 	}
 	return 0
+}
+
+func firstOf(xs []string) string {
+	if len(xs) == 0 {
+		return ""
+	}
+	return xs[0]
 }
 
 func sum(m map[string]int) int {
